@@ -8,19 +8,19 @@ NOT_APPLICABLE = {("C%02d" % i): PENDING for i in range(1, 21)}
 
 TEXT = {
     "C11": {
-        "text": "Proved: for the documented cells of the kind x Go type matrix Marshal followed by Unmarshal into a zero value returns the value in canonical form; zero-valued fields without keepzero leave the message untouched; Unmarshal leaves struct fields of absent message fields untouched; the plain []byte target is refuted (F14, recorded finding). The model of the reflection loops, tag resolution and type switches is compared with the library over the whole matrix with struct types built at run time, nested to depth 3, and the oracle checks presence and the round trip directly and via Pack/Unpack (partial: whole-struct theorem not yet proved).",
+        "text": "Proved: for the documented cells of the kind x Go type matrix Marshal followed by Unmarshal returns the value in canonical form; zero-valued fields without keepzero leave the message untouched; Unmarshal leaves struct fields of absent message fields untouched; whole structs over the MTI and primitive data elements (any tag style, distinct ids) come back with every non-zero field unchanged and every other field zero, directly and after Pack and Unpack into another message object; nested structs to any depth through Composite.Marshal / Composite.Unmarshal (induction over the depth) and through Message.Marshal / Message.Unmarshal for composite data elements; the plain []byte target is refuted (F14, recorded finding). The model of the reflection loops, tag resolution and type switches is compared with the library over the whole matrix with struct types built at run time, nested to depth 3, and the oracle checks presence and the round trip directly and via Pack/Unpack (partial: keepzero).",
         "design_ref": "DESIGN.md section 6 C11",
         "note": "Trusted: Coq kernel, hand-written model of the Marshal/Unmarshal reflection (validated by correspondence), reflect.StructOf-based harness.",
         "technique": "Rocq theorems over a Gallina model + differential correspondence + property oracle",
     },
     "C17": {
-        "text": "Proved: ImportJSON is total on every parsed document (error or spec, never a panic), the encoding / prefix name tables are mutually inverse on the exportable vocabulary and agree with the live maps regenerated from specs/builder.go, padding descriptions import back to the same padder. The model of export and import is compared with the library on generated specs (exported document as a canonical tree, imported spec as a term) and on mutated documents; the oracle checks the structural round trip, byte-identical re-export, determinism and identical behaviour on the real library (partial: the export/import identity for whole spec trees is not yet a theorem).",
+        "text": "Proved: ImportJSON is total on every parsed document (error or spec, never a panic), the encoding / prefix name tables are mutually inverse on the exportable vocabulary and agree with the live maps regenerated from specs/builder.go, padding descriptions import back to the same padder; ImportJSON of the exported document is the specification itself for every field tree of the expressible vocabulary at any nesting depth within the importer's recursion and for whole message specifications, the imported rows determine the specification, so the re-imported specification is the exported one (same Pack / Unpack, identical re-export). The model of export and import is compared with the library on generated specs (exported document as a canonical tree, imported spec as a term), on the same specs with tag lengths left out, and on mutated documents; the oracle checks the structural round trip, byte-identical re-export, determinism and identical behaviour on the real library.",
         "design_ref": "DESIGN.md section 6 C17",
         "note": "Trusted: Coq kernel, hand-written model of specs/builder.go on parsed documents (validated by correspondence), the table translator, encoding/json's parser, Go harness.",
         "technique": "Rocq theorems over a Gallina model + generated name tables + differential correspondence + property oracle",
     },
     "C18": {
-        "text": "The catalogue theorem is evaluated on the error-site table regenerated from the sources on every run: outside a closed, justified list of sites bounded below 8 value bytes, no error message formats a value-derived string unless hidden behind a SafeError, and every error that quotes its input (strconv, hex, json) is hidden or bounded. The Describe masking theorems show the printed value never contains the complete PAN / PIN block. The dynamic oracle induces failures with high-entropy secrets across kinds, encodings and operations and greps the library's error texts and Describe output (partial: the translator's classification is syntactic; track filters are outside the model).",
+        "text": "The catalogue theorem is evaluated on the error-site table regenerated from the sources on every run: outside a closed, justified list of sites bounded below 8 value bytes, no error message formats a value-derived string unless hidden behind a SafeError, and every error that quotes its input (strconv, hex, json) is hidden or bounded. The Describe masking theorems show the printed value never contains the complete PAN / PIN block, and the filters of Track1, Track2 and Track3 fields show every packable well-formed track with the PAN masked and nothing else changed; a track the field cannot parse again is shown by its first and last four characters (repair of F31, found by the thorough tier). The dynamic oracle induces failures with high-entropy secrets across kinds, encodings and operations and greps the library's error texts and Describe output (partial: the translator's classification is syntactic; tracks carried in String fields are checked by search only).",
         "design_ref": "DESIGN.md section 6 C18",
         "note": "Trusted: Coq kernel, the go/ast error-site translator and its argument classes, hand-written masking model validated by correspondence through the real Describe, Go harness.",
         "technique": "Rocq theorems over a generated error-site catalogue and a masking model + secret-grepping oracle",
@@ -32,13 +32,13 @@ TEXT = {
         "technique": "Rocq theorems over a lock machine + source translator (go/ast) + race-detector stress run",
     },
     "C12": {
-        "text": "Proved: MarshalJSON succeeds exactly when Pack does, every object lists its keys in the StringsByInt order of its key set regardless of map order, and the message object's keys are the presence set. The JSON text itself (escaping, numbers, hex) is compared byte for byte with the library on histories with arbitrary byte values; validity, key order, the decode round trip and identical re-pack are checked by the oracle (partial: no theorem yet for syntactic validity and the decode round trip).",
+        "text": "Proved: MarshalJSON succeeds exactly when Pack does, every object lists its keys in the StringsByInt order of its key set regardless of map order, and the message object's keys are the presence set; the emitted text is valid JSON (RFC 8259 grammar as an inductive predicate) for every string value whatever its bytes, every nesting of composites with plain-text tags and every message; the text is the rendering of the state's document, and UnmarshalJSON of that document into a new field / message of the same specification gives the state back (same primitives, same set subfields and contents at every depth, same MTI, bitmap field, populated set and element contents). The JSON text itself is compared byte for byte with the library on histories with arbitrary byte values; that encoding/json parses the text to that document is Go's library: json.Valid, key order, the decode round trip and identical re-pack are checked by the oracle on the library.",
         "design_ref": "DESIGN.md section 6 C12",
         "note": 'Trusted: Coq kernel, hand-written model (Model/Message.v, Model/Json.v, Model/MessageOps.v) validated by correspondence on every run, extraction/driver, Go harness and property oracle.',
         "technique": "Rocq theorems over a Gallina model + differential correspondence + property oracle",
     },
     "C14": {
-        "text": 'Theorems quantified over every message state (hence every point of every operation sequence): the bits of the packed bitmap, continuation bits aside, are exactly the ids GetFields reports; JSON is built from the same set and succeeds iff Pack does; Pack/JSON do not change values or the set; UnsetField removes the id and resets the whole nested state. The model of all operations is compared with the library after every step of random and exhaustive short histories; the oracle keeps a reference set (written since creation or the last Unpack, minus unset) and checks that nothing that was unset, replaced by an Unpack, or decoded by a failed Unpack ever comes back (this found and led to the repair of F28 and F30).',
+        "text": "Theorems quantified over every message state (hence every point of every operation sequence): the bits of the packed bitmap (auto-expanding or fixed), continuation bits aside, are exactly the ids GetFields reports; JSON is built from the same set and succeeds iff Pack does; Pack/JSON do not change values or the set; the set per operation: a setter adds exactly its id, Marshal of a struct adds exactly the ids of its non-zero indexed fields, UnsetField removes exactly its id and resets the whole nested state, UnsetSubfields by path (any depth) leaves nothing populated at the path, an as-new object there and every other path as it was, a successful Unpack of any bytes leaves the MTI, the bitmap and exactly the announced elements. The model of all operations is compared with the library after every step of random and exhaustive short histories; the oracle keeps a reference set (written since creation or the last Unpack, minus unset) and checks - in a quiet replay that performs only the history's operations - that nothing that was unset, replaced by an Unpack, or decoded by a failed Unpack ever comes back (this found and led to the repair of F28 and F30).",
         "design_ref": "DESIGN.md section 6 C14",
         "note": 'Trusted: Coq kernel, hand-written model (Model/Message.v, Model/Json.v, Model/MessageOps.v) validated by correspondence on every run, extraction/driver, Go harness and property oracle.',
         "technique": "Rocq theorems over a Gallina model + differential correspondence + property oracle",
@@ -50,19 +50,19 @@ TEXT = {
         "technique": "Rocq theorems over a Gallina model + differential correspondence + property oracle",
     },
     "C01": {
-        "text": "Round trip is a theorem at every level of the model: for every primitive field (all encodings, the 43 prefixers, paddings); by induction over the specification for every nested field specification whose composites are tagged (TLV / BER), positional or bitmapped - same content, exact consumption with arbitrary trailing bytes, arbitrary prior state of the object, identical re-pack; and for whole messages with an auto-expanding bitmap of any number of blocks (same MTI, bitmap, populated set and content; identical re-pack). The five shipped specifications, regenerated from the library's spec objects on every run, are proved coherent by a sound decision procedure, so the theorems apply to them. Fixed message bitmaps and track fields are covered by the correspondence and the oracle only.",
+        "text": "Round trip is a theorem at every level of the model: for every primitive field (all encodings, the 43 prefixers, paddings; the domain is the weakest one the round trip needs); by induction over the specification for every nested field specification whose composites are tagged (TLV / BER), positional or bitmapped - same content, exact consumption with arbitrary trailing bytes, arbitrary prior state of the object, identical re-pack; for whole messages with an auto-expanding bitmap of any number of blocks or a fixed bitmap (same MTI, bitmap, populated set and content; identical re-pack); and for Track1 / Track2 / Track3 fields (rendering, the three regular expressions as deterministic matchers, trimming, the expiry check). The five shipped specifications, regenerated from the library's spec objects on every run, are proved coherent by a sound decision procedure, so the theorems apply to them.",
         "design_ref": "DESIGN.md section 6 C01",
         "note": 'Trusted: Coq kernel, hand-written model (Model/Field.v, Model/Message.v) validated by correspondence on every run, extraction/driver, Go harness incl. the spec/value generators and the property oracle.',
         "technique": "Rocq theorems over a Gallina model + differential correspondence + property oracle",
     },
     "C02": {
-        "text": 'Re-encoding is a proved fixed point on canonical states of every primitive field; that everything Unpack accepts is re-packable is checked by the oracle on mutated encodings over generated specs and is refuted (theorem with witness) for EBCDIC1047 text fields, a recorded finding (F26).',
+        "text": "Proved: whatever a primitive field accepts ends in the domain of the round trip and packs, so the re-packed bytes are accepted again (with anything after them, into any object), give the same value and re-pack to themselves - for every coherent primitive specification that is accept_ok (decoded text is what the encoder encodes, pad character in the encoder's alphabet, maximum expressible in the prefix digits, Numeric fields with a way to restore their width); whatever a message accepts lies in the domain of the message round trip, re-packs, and the re-packed bytes decode to the same MTI, bitmap, element set and contents and re-pack to themselves, for every coherent message specification whose field specifications are accepting (all primitive fields are); every primitive data element of the five shipped specifications is accepting (sound decision procedure, re-run on every run). EBCDIC1047 text fields are refuted with a witness, a recorded finding (F26). Composites as accepting field specifications (a re-packed subfield can outgrow a tight composite maximum) are checked by the oracle on mutated encodings over generated specs only.",
         "design_ref": "DESIGN.md section 6 C02",
         "note": 'Trusted: Coq kernel, hand-written model (Model/Field.v, Model/Message.v) validated by correspondence on every run, extraction/driver, Go harness incl. the spec/value generators and the property oracle.',
         "technique": "Rocq theorems over a Gallina model + differential correspondence + property oracle",
     },
     "C03": {
-        "text": "The layout is a theorem for every primitive field (prefix of exact width and alphabet announcing the padded unit count, then the encoded padded value), for every tagged or positional composite (prefix, then exactly the set subfields in the spec's sort order, each preceded by its encoded tag when tags travel) and for every message with an auto-expanding bitmap (MTI, bitmap of k blocks whose first bit is set iff another block follows and whose other bits are exactly the populated elements, then the populated elements in strictly ascending order); conversely such bytes unpack to the values (C01). Bitmapped composites and fixed message bitmaps are compared on every generated case with an independent reference encoder written from the property text.",
+        "text": "The layout is a theorem for every primitive field (prefix of exact width and alphabet announcing the padded unit count, then the encoded padded value), for every tagged or positional composite (prefix, then exactly the set subfields in the spec's sort order, each preceded by its encoded tag when tags travel), for every bitmapped composite (prefix, bitmap whose bit n is set iff subfield n is set, then the set subfields in id order) and for every message with an auto-expanding or a fixed bitmap (MTI, bitmap of k blocks whose first bit is set iff another block follows and whose other bits are exactly the populated elements, then the populated elements in strictly ascending order); conversely such bytes unpack to the values (C01). An independent reference encoder written from the property text is compared with the library on every generated case as a cross-check.",
         "design_ref": "DESIGN.md section 6 C03",
         "note": 'Trusted: Coq kernel, hand-written model (Model/Field.v, Model/Message.v) validated by correspondence on every run, extraction/driver, Go harness incl. the spec/value generators and the property oracle. harness/reflayout.go is the reference codec for composites and messages.',
         "technique": "Rocq theorems over a Gallina model + differential correspondence + property oracle",
@@ -86,13 +86,13 @@ TEXT = {
         "technique": "Rocq theorems over a Gallina model + differential correspondence + property oracle",
     },
     "C10": {
-        "text": 'Proved for primitive fields, for every composite field (any nesting, all modes) and for whole messages: the outcome of Unpack does not depend on what the object held, and after a successful Unpack neither does the complete state of the object (hence values, nested subfields, re-packed bytes, JSON), for objects in a clean state (every subfield / element that is not set is as new; the element at which the last Unpack failed excepted). Clean is proved to hold for new objects and to be kept by Unpack (whatever its outcome) and UnsetField; for the other writers it is checked by the correspondence on histories. This rests on the repairs F12, F27, F28, F29, F30, all found by the checks. Track fields: model and search.',
+        "text": "Proved for primitive fields, for every composite field (any nesting, all modes) and for whole messages: the outcome of Unpack does not depend on what the object held, and after a successful Unpack neither does the complete state of the object (hence values, nested subfields, re-packed bytes, JSON), for objects in a clean state (every subfield / element that is not set is as new; the element at which the last Unpack failed excepted). Clean is proved to hold for new objects and to be kept by Unpack (whatever its outcome), UnsetField, the setters by id, Message.Marshal of any struct (whatever its outcome), every accepted UnmarshalJSON and UnsetFields by path; failing JSON documents (state depends on Go's map order) are not claimed. This rests on the repairs F12, F27, F28, F29, F30, all found by the checks. Track fields: model and search.",
         "design_ref": "DESIGN.md section 6 C10",
         "note": 'Trusted: Coq kernel, hand-written model (Model/Field.v, Model/Message.v) validated by correspondence on every run, extraction/driver, Go harness incl. the spec/value generators and the property oracle.',
         "technique": "Rocq theorems over a Gallina model + differential correspondence + property oracle",
     },
     "C19": {
-        "text": 'Proved: every Unpack failure of the message model carries a non-empty field-id path headed by the element at which decoding stopped (MTI 0, bitmap 1, else an announced element at or after the loop position). The truncation-attribution clause is checked on every truncation offset of generated messages (owner computed independently from element lengths) and elements before the owner are compared with their decoded values; typing of PackError/UnpackError is checked on the library (partial).',
+        "text": "Proved: every Unpack failure of the message model carries a non-empty field-id path headed by the element at which decoding stopped (MTI 0, bitmap 1, else an announced element at or after the loop position); inside composites the path continues with the tag of the failing subfield and a path of that subfield's specification, at every depth and in all three modes; truncation: any field (primitive or composite of any mode and depth) cut strictly inside its packed bytes is rejected as its own failure with the object left as it was, and a packed message cut at any offset is reported against exactly the element - MTI, bitmap, data element k - that owns the byte at that offset. The truncation clause is also checked on every truncation offset of generated messages (owner computed independently from element lengths); typing of PackError/UnpackError is glue outside the model and is checked on the library (partial).",
         "design_ref": "DESIGN.md section 6 C19",
         "note": 'Trusted: Coq kernel, hand-written model (Model/Field.v, Model/Message.v) validated by correspondence on every run, extraction/driver, Go harness incl. the spec/value generators and the property oracle.',
         "technique": "Rocq theorems over a Gallina model + differential correspondence + property oracle",
